@@ -1466,15 +1466,26 @@ def _deep_body(rep, K, stmts, news, attrname, valname, memo, shallow_ok):
     for st in stmts:
         if isinstance(st, ast.If):
             names = None
+            negated = False
             t = st.test
             if isinstance(t, ast.Compare) and len(t.ops) == 1 and isinstance(t.left, ast.Name) and t.left.id == attrname:
-                if isinstance(t.ops[0], ast.Eq) and isinstance(t.comparators[0], ast.Constant):
+                if isinstance(t.ops[0], (ast.Eq, ast.NotEq)) and isinstance(t.comparators[0], ast.Constant):
                     names = {t.comparators[0].value}
-                elif isinstance(t.ops[0], ast.In) and isinstance(t.comparators[0], (ast.Set, ast.List, ast.Tuple)):
+                    negated = isinstance(t.ops[0], ast.NotEq)
+                elif isinstance(t.ops[0], (ast.In, ast.NotIn)) and isinstance(t.comparators[0], (ast.Set, ast.List, ast.Tuple)):
                     nn = _str_tuple(ast.Tuple(elts=t.comparators[0].elts))
                     names = set(nn) if nn is not None else None
-            _deep_body(rep, K, st.body, news, attrname, valname, memo, names if names is not None else shallow_ok)
-            _deep_body(rep, K, st.orelse, news, attrname, valname, memo, shallow_ok)
+                    negated = isinstance(t.ops[0], ast.NotIn)
+            if names is None:
+                body_names = else_names = shallow_ok
+            elif negated:   # `if attr != "_data": <general case> [continue]` … the named attribute is what follows / the else arm
+                body_names, else_names = shallow_ok, names
+            else:
+                body_names, else_names = names, shallow_ok
+            _deep_body(rep, K, st.body, news, attrname, valname, memo, body_names)
+            _deep_body(rep, K, st.orelse, news, attrname, valname, memo, else_names)
+            if not st.orelse and st.body and isinstance(st.body[-1], (ast.Continue, ast.Return)):
+                shallow_ok = else_names  # the statements after the guard run only when the test failed
             continue
         value = None
         if isinstance(st, ast.Expr) and isinstance(st.value, ast.Call) and isinstance(st.value.func, ast.Name) and st.value.func.id == "setattr" \
